@@ -231,7 +231,14 @@ def ev_call(self, e, st):
 def construct(self, st, cls, args, kwargs, node):
     """ClassName(args): allocate a fresh object and execute the class's __init__ (inlined; loop-free bodies only)."""
     mod, cname = models.CLASSES[cls]["src"]
-    fs = source.find_function(f"{mod}:{cname}.__init__")
+    try:
+        fs = source.find_function(f"{mod}:{cname}.__init__")
+    except KeyError:
+        if args or kwargs:
+            raise
+        s = st.fork()              # a class without __init__ of its own: a fresh object with no fields set
+        yield s, self.alloc(s, cls)
+        return
     s = st.fork()
     obj = self.alloc(s, cls)
     for tag in models.CLASSES:
